@@ -1,5 +1,7 @@
 import Goflow.Gen.History
 import Goflow.Gen.Frame
+import Goflow.Gen.C11
+import Goflow.Gen.C14
 /-! C01 generator: the malformed stream through every entry point — the three pipes and the exported
     Decode* / ParsePacket functions — derived from well-formed datagrams by truncation, bit flips and
     count/length inflation, plus targeted degenerate inputs (templates without fields or with only
@@ -59,6 +61,21 @@ def gen (n : Nat) : G (List String) := do
         | _ => bytesOf (← range 0 80)
       let d ← mutate d0
       out := out ++ ["call v5 " ++ hexOf d, "call nf x" ++ toString i ++ " " ++ hexOf d, "call sf " ++ hexOf d]
+    -- sampling announcements (including interval 0 after a rate is known) followed by more traffic
+    out := out ++ (← C11.genHistory (if i % 2 = 0 then "nf" else "auto") 14)
+    -- mapping files with layer statements: complete, truncated and mutated frames through the dissector
+    let round ← C14.genLayerRound i
+    for l in round do
+      out := out ++ [l]
+      match l.splitOn " " with
+      | ["call", "parsepacket", cid, hex] =>
+        match parseHex hex with
+        | some b =>
+          for _ in [0:3] do
+            out := out ++ ["call parsepacket " ++ cid ++ " " ++ hexOf (b.take (← below (b.length + 1)))]
+          out := out ++ ["call parsepacket " ++ cid ++ " " ++ hexOf (← mutate b)]
+        | none => pure ()
+      | _ => pure ()
     -- ParsePacket on truncated / mutated frames
     for _ in [0:4] do
       let f ← Frame.genFrame
